@@ -375,7 +375,9 @@ type c08GroupSet struct {
 
 func c08SessionGroups(quick bool) []c08GroupSet {
 	out := []c08GroupSet{{NoClaim: true}, {G: []string{}}, {G: []string{"staff"}}, {G: []string{"guests"}},
-		{G: []string{"guests", "staff"}}, {G: []string{"staffx"}}, {G: []string{"Staff"}}}
+		{G: []string{"guests", "staff"}}, {G: []string{"staffx"}}, {G: []string{"Staff"}},
+		// so many groups that the session needs several cookies (none of them under the bare cookie name)
+		{G: append(c18BigGroups(), "outsiders")}}
 	if !quick {
 		out = append(out, c08GroupSet{G: []string{"admins"}}, c08GroupSet{G: []string{"staff,admins"}},
 			c08GroupSet{G: []string{""}}, c08GroupSet{G: []string{"sta", "ff"}})
